@@ -428,6 +428,10 @@ def run(prog: Program, col: Collector, tier: str, refs: Optional[Refs] = None, c
                       "a subset of the op's parameters is printed positionally: a later non-default parameter is read back as an earlier one "
                       "(ClampOp(max=0.5) prints as ClampOp(0.5), i.e. min=0.5)", po.loc())
 
+    # ---------------------------------------------------------------- R18.8
+    col.rule("R18.8", "an operand taken out of a work list by the compiler / lowering code is consumed on every path", floor=5)
+    _popped_values(prog, col)
+
     # ---------------------------------------------------------------- R18.7
     col.rule("R18.7", "what the tracer records for an op call determines the computation that was traced", floor=1)
     _trace_record(prog, col, refs)
@@ -468,3 +472,54 @@ def _trace_record(prog: Program, col: Collector, refs: Refs):
                   f"the record `{norm(tup)}` does not depend on {' / '.join(('**' if p == kw else '*') + p for p in missing)} of the call: "
                   f"an op called with keyword parameters (ops.sum(x, axis=0), ops.clamp(x, min=a)) is traced as the default-parametrised op and the program computes something else",
                   f.loc(rec))
+
+
+def _popped_values(prog: Program, col: Collector):
+    """Dead-store analysis restricted to values removed from a collection (`v = xs.pop(...)`, `popitem`, `popleft`): if control
+    can go from the removal to another assignment of `v`, or to the end of the function, without reading `v`, the removed
+    element - an operand of the expression being compiled - is silently dropped from the program."""
+    import networkx as nx
+    from ..cfg import CFG
+    mods = [m for m in ("funsor.compiler", "funsor.ops.program", "funsor.ops.tracer") if m in prog.modules]
+    for f in prog.funcs.values():
+        if f.module.name not in mods or isinstance(f.node, ast.Lambda):
+            continue
+        pops = []
+        for n in walk_no_nested(f.node):
+            if isinstance(n, ast.Assign) and len(n.targets) == 1 and isinstance(n.targets[0], ast.Name) and isinstance(n.value, ast.Call) \
+                    and isinstance(n.value.func, ast.Attribute) and n.value.func.attr in ("pop", "popitem", "popleft"):
+                pops.append(n)
+        if not pops:
+            col.ok(f"{f.fq}::no removal from a work list", "nothing is popped", f.loc(), nontrivial=False)
+            continue
+        cfg = CFG(f.node)
+        for p_ in pops:
+            name = p_.targets[0].id
+            uses, defs = set(), set()
+            for node in cfg.nodes:
+                a = node.ast
+                if a is None or node.kind in ("entry", "exit", "raise"):
+                    continue
+                # the part of the statement evaluated at this node: headers of compound statements only
+                exprs = [a.test] if isinstance(a, (ast.If, ast.While)) and node.kind == "test" else [a.iter] if isinstance(a, ast.For) else [a]
+                if any(isinstance(x, ast.Name) and x.id == name and isinstance(x.ctx, ast.Load) for e in exprs for x in ast.walk(e)):
+                    uses.add(node.idx)
+                elif any(isinstance(x, ast.Name) and x.id == name and isinstance(x.ctx, ast.Store) for e in exprs for x in ast.walk(e)):
+                    defs.add(node.idx)
+            starts = [n.idx for n in cfg.nodes_for(p_)]
+            g = cfg.g.subgraph([n for n in cfg.g.nodes if n not in uses or n in starts])
+            lost_to = None
+            for s0 in starts:
+                for succ in g.successors(s0):
+                    reach = nx.descendants(g, succ) | {succ}
+                    hit = (reach & defs) | ({cfg.exit.idx} & reach)
+                    if hit:
+                        lost_to = sorted(hit)[0]
+            construct = f"{f.fq}::{norm(p_)}"
+            if lost_to is None:
+                col.ok(construct, f"`{name}` is read on every path before it is re-assigned or the function ends", f.loc(p_))
+            else:
+                tgt = cfg.nodes[lost_to]
+                where = "the end of the function" if tgt.kind == "exit" else f"the assignment at line {getattr(tgt.ast, 'lineno', '?')}"
+                col.violation(construct, f"the element removed by `{norm(p_.value)}` can reach {where} without `{name}` being read: an operand is dropped from the compiled program "
+                              "(for some numbers of terms)", f.loc(p_))
